@@ -7,7 +7,8 @@ import itertools
 from pyvc.sym import And, Or, Not, Implies, Iff, Ite, deep_eq, deep_lt, Sym
 from spec.groups import MOD, ALL_SYMS, FUSE_S, canon, is_canonical, zero, sym_class
 from spec import tensor as T
-from spec.tensor import sym_tensor, check_wf, view, same_block_set, leg_charge, GhostData, make_config
+from spec.tensor import (sym_tensor, check_wf, view, same_block_set, leg_charge, GhostData, make_config, legs_union_of,
+                         dense, same_array)
 
 
 def mk(V, sym, nd, lt, trans=None, diag=False, mfs=None, stem='a', config=None, signs=None, n=None):
@@ -69,6 +70,16 @@ def h_tensordot(V, sym, nd_a, nd_b, lt_a, lt_b, in_a, in_b, policy, trans_a, tra
     V.check('every-result-block-comes-from-a-matching-pair',
             And(*[Or(*[And(m, deep_eq(t, g[0]), deep_eq(D, g[1])) for m, t, D in want]) for g in got]))
     V.check('result-has-no-pending-permutation', c.trans == tuple(range(len(c.struct.s))))
+    if not V.symbolic:
+        import numpy as np
+        la, lb = {}, {}
+        for ka, kb in zip(in_a, in_b):
+            u = legs_union_of([(a, ka, False), (b, kb, True)])
+            la[ka], lb[kb] = u, u.conj()
+        A, B = dense(a, la), dense(b, lb)
+        lc = {i: a.get_legs(k) for i, k in enumerate(out_a)}
+        lc.update({len(out_a) + i: b.get_legs(k) for i, k in enumerate(out_b)})
+        V.check('native:dense-value-equals-numpy-tensordot', same_array(dense(c, lc), np.tensordot(A, B, axes=(in_a, in_b))))
 
 
 def tensordot_units(tier, syms=None):
@@ -162,6 +173,13 @@ def h_add(V, sym, nd, lt_a, lt_b, op, trans_a, trans_b, diag=False):
     src = [(x[0], x[1]) for x in va['blocks']] + [(x[0], x[1]) for x in vb['blocks']]
     V.check('result-blocks-are-the-union', And(*[Or(*[And(deep_eq(g[0], s_[0]), deep_eq(g[1], s_[1])) for s_ in src]) for g in got],
                                                 *[Or(*[And(deep_eq(g[0], s_[0]), deep_eq(g[1], s_[1])) for g in got]) for s_ in src]))
+    if not V.symbolic:
+        lg = {k: legs_union_of([(a, k, False), (b, k, False)]) for k in range(nd)} if not diag else None
+        A, B = dense(a, lg), dense(b, lg)
+        if diag and A.shape != B.shape:
+            pass
+        else:
+            V.check('native:dense-value-equals-numpy', same_array(dense(c, lg), A + B if op == 'add' else A - B))
     if V.symbolic:
         name, args = cfg.backend.calls[-1]
         V.check('data-from-add-kernel', name == op and c._data.op == (op,))
@@ -218,7 +236,17 @@ def h_vdot(V, sym, nd, lt_a, lt_b, conj, trans_a, trans_b):
     va, vb = view(a, sym), view(b, sym)
     out = V.outcome(a.vdot, b, conj=conj)
     V.check('compatible-operands-accepted', out.exc is None)
-    if out.exc is not None or not V.symbolic:
+    if out.exc is not None:
+        return
+    if not V.symbolic:
+        import numpy as np
+        lg = {k: legs_union_of([(a, k, bool(conj[0])), (b, k, not bool(conj[1]))]) for k in range(nd)}
+        la = {k: (l.conj() if conj[0] else l) for k, l in lg.items()}
+        lb = {k: (l if conj[1] else l.conj()) for k, l in lg.items()}
+        A, B = dense(a, la), dense(b, lb)
+        A = A.conj() if conj[0] else A
+        B = B.conj() if conj[1] else B
+        V.check('native:value-equals-dense-inner-product', float(np.sum(A * B)) == float(out.value))
         return
     name, args = cfg.backend.calls[-1]
     V.check('value-from-vdot-kernel', name == 'vdot')
@@ -288,6 +316,19 @@ def h_trace(V, sym, nd, lt, in0, in1, trans):
     got = [(x[0], x[1]) for x in vc['blocks']]
     V.check('every-charge-diagonal-block-contributes', And(*[Implies(m, Or(*[And(deep_eq(t, g[0]), deep_eq(D, g[1])) for g in got])) for m, t, D in want]))
     V.check('every-result-block-comes-from-a-charge-diagonal-block', And(*[Or(*[And(m, deep_eq(t, g[0]), deep_eq(D, g[1])) for m, t, D in want]) for g in got]))
+    if not V.symbolic:
+        import numpy as np
+        lg = {}
+        for k0, k1 in zip(in0, in1):
+            u = legs_union_of([(a, k0, False), (a, k1, True)])
+            lg[k0], lg[k1] = u, u.conj()
+        A = dense(a, lg)
+        letters = [chr(ord('a') + k) for k in range(nd)]
+        for k0, k1 in zip(in0, in1):
+            letters[k1] = letters[k0]
+        expr = ''.join(letters) + '->' + ''.join(letters[k] for k in rest)
+        lc = {i: a.get_legs(k) for i, k in enumerate(rest)}
+        V.check('native:dense-value-equals-numpy-trace', same_array(dense(c, lc), np.einsum(expr, A)))
 
 
 # ---------------------------------------------------------------------------------------------
@@ -320,6 +361,17 @@ def h_broadcast(V, sym, nd, lt_a, lt_b, axis, trans_b):
         present = Or(*[deep_eq(leg_charge(bb[0], axis % nd, nsym), leg_charge(td, 0, nsym)) for td in d.struct.t]) if lt_a else False
         V.check('block-kept-iff-diagonal-has-its-sector', Iff(present, Or(*[And(deep_eq(bb[0], g[0]), deep_eq(bb[1], g[1])) for g in got]) if got else False))
     V.check('no-new-blocks', And(*[Or(*[And(deep_eq(bb[0], g[0]), deep_eq(bb[1], g[1])) for bb in vb['blocks']]) for g in got]))
+    if not V.symbolic:
+        import numpy as np
+        k = axis % nd
+        lb = {k: b.get_legs(k)}
+        dd = d.to_numpy(legs={0: lb[k] if lb[k].s == d.get_legs(0).s else lb[k].conj(), 1: (lb[k] if lb[k].s == d.get_legs(0).s else lb[k].conj()).conj()})
+        diagv = np.diag(dd)
+        B = dense(b, None)
+        shp = [1] * nd
+        shp[k] = -1
+        lc = {i: b.get_legs(i) for i in range(nd)}
+        V.check('native:dense-value-equals-diagonal-scaling', same_array(dense(c, lc), B * diagv.reshape(shp)))
     if V.symbolic:
         name, args = cfg.backend.calls[-1]
         meta, Dsize, ax, ndim = args
